@@ -31,6 +31,9 @@ def main():
     if not prop.startswith("C"):  # round 3: <area> X1|X2|X3, judged by all 19 checks
         src = f"/tmp/adv-out/{prop}"
         dst = f"/verif/seeded/adv-{prop}-{which}"
+        if which.startswith("Y"):  # round 4: feature work with a natural slip
+            src = f"/tmp/r4-out/{prop}"
+            dst = f"/verif/seeded/r4-{prop}-{which}"
         if "--checks" not in sys.argv:
             checks = [f"C{i:02d}" for i in range(1, 20)]
     if not os.path.exists(f"{src}/{which}.diff") and os.path.exists(f"{dst}/patch.diff"):
